@@ -228,6 +228,20 @@ def u2_files(sc, root: str) -> dict:
         files[f"{sid}/sub/deep/__init__.py"] = decl(1)
         files[f"{sid}/sub/__init__.py"] = "from . import deep\n\n\n" + decl(2)
         return files
+    if sc.get("variant") == "privpkgtop":    # ... the private package lies beside the packages that re-export it (same depth)
+        files[f"{sid}/sub/deep/{nm['m1']}.py"] = "def filldeep" + s + "() -> int:\n    ...\n"
+        files[f"{sid}/_2d/__init__.py"] = decl(1)
+        files[f"{sid}/_2d/fill2d.py"] = "def fill2d" + s + "() -> int:\n    ...\n"
+        for e in sc["exports"]:
+            files["/".join([sid, *AT_PATH[e["at"]], "__init__.py"])] += f"from {root}.{sid}._2d import {nm[1]}" + (f" as {e['alias']}{s}" if e["alias"] else "") + "\n"
+        return files
+    if sc.get("variant") == "privpkginit":   # declaration 1 lives in the package file of a private sub-package whose name sorts before "__init__.py"
+        files[f"{sid}/sub/deep/{nm['m1']}.py"] = "def filldeep" + s + "() -> int:\n    ...\n"
+        files[f"{sid}/sub/_2d/__init__.py"] = decl(1)
+        files[f"{sid}/sub/_2d/fill2d.py"] = "def fill2d" + s + "() -> int:\n    ...\n"
+        for e in sc["exports"]:
+            files["/".join([sid, *AT_PATH[e["at"]], "__init__.py"])] += f"from {root}.{sid}.sub._2d import {nm[1]}" + (f" as {e['alias']}{s}" if e["alias"] else "") + "\n"
+        return files
     if sc.get("variant") == "pkgnamed":      # the package "deep" is called like declaration 1, which it re-exports from a private module; declaration 2 lives in its package file
         files = {k.replace(f"{sid}/sub/deep/", f"{sid}/sub/{nm[1]}/"): t for k, t in files.items()}
         del files[f"{sid}/sub/{nm['m2']}.py"]
@@ -285,6 +299,10 @@ def u2_observe(sc, stubs: Stubs, rootname: str, idx: dict | None = None) -> dict
         for t, path in ((1, ["sub", "deep", nm["m1"]]), (2, [*({"privtwin": ["_hid"], "privtwindeep": ["sub", "deep", "_hid"]}.get(sc.get("variant"), ["sub"])), nm["m2"]])):
             if sc.get("variant") == "pkgnamed":
                 path = ["sub", nm[1], nm["m1"]] if t == 1 else ["sub", nm[1]]
+            if sc.get("variant") == "privpkginit" and t == 1:
+                path = ["sub", "_2d"]
+            if sc.get("variant") == "privpkgtop" and t == 1:
+                path = ["_2d"]
             jid = "/".join([rootname, sid, *path, nm[t]])
             e = idx.get("functions" if sc["kind"] == "function" else "classes", {}).get(jid)
             if e is not None:
